@@ -272,6 +272,22 @@ def el_ids_unicode(g):
             f'<use href="#größe" x="{g.p()}" y="{g.p()}"/><use href="#слой-2" x="{g.p()}"/><rect id="é1" x="{g.p()}" y="{g.p()}" width="{g.s()}" height="{g.s()}" clip-path="url(#图标)"/>')
 
 
+def el_use_xlink(g):
+    # SVG 1.1 spells the reference of a <use> xlink:href (the root declares the prefix)
+    return (f'<defs><rect id="xl" width="{g.s()}" height="{g.s()}"/></defs><use xlink:href="#xl" x="{g.p()}" y="{g.p()}"/><use xlink:href="#xl"/>'
+            f'<g><use x="{g.p()}" xlink:href="#xl" y="{g.p()}" width="{g.s()}" height="{g.s()}"/></g>')
+
+
+def el_use_external(g):
+    # a <use> may refer into another document
+    return f'<rect x="{g.p()}" y="{g.p()}" width="{g.s()}" height="{g.s()}"/><use href="other.svg#frag" x="{g.p()}" y="{g.p()}"/>'
+
+
+def el_ws_content(g):
+    # white space between the tags of a shape is not text
+    return f'<rect x="{g.p()}" y="{g.p()}" width="{g.s()}" height="{g.s()}">\n</rect><circle cx="{g.p()}" cy="{g.p()}" r="{g.s()}"> </circle>'
+
+
 def el_transform_ws(g):
     # white space (line breaks included) and commas may surround and separate the items of a transform list
     return (f'<rect width="{g.s()}" height="{g.s()}" transform="translate({g.p()},{g.p()}) "/><rect width="{g.s()}" height="{g.s()}" transform=" rotate({g.p()})"/>'
@@ -287,7 +303,7 @@ def el_transforms(g):
             f'<text x="{g.p()}" y="{g.p()}" transform="rotate({g.p()})">t</text><use href="#trf" x="{g.p()}" y="{g.p()}" transform="skewX({g.p()})"/><defs><rect id="trf" width="1" height="1"/></defs>')
 
 
-LEAF = {"clip-values": el_clip_values, "clip-nobox": el_clip_nobox, "ids-unicode": el_ids_unicode, "transform-ws": el_transform_ws, "use-centred": el_use_centred, "line-partial": el_line_partial, "text-forms": el_text_forms, "points-ws": el_points_ws, "fine-decimals": el_fine_decimals, "comment-text": el_comment_text, "mixed-units": el_mixed_units, "nonshape-attrs": el_nonshape_attrs, "text-dx-carriers": el_text_dx_carriers, "transforms": el_transforms, "partial": el_partial, "openclose": el_openclose, "use-partial": el_use_partial, "rect": el_rect, "rect0": el_rect0, "circle": el_circle, "ellipse": el_ellipse, "line": el_line, "polyline": el_polyline, "polygon": el_polygon, "path-abs": el_path_abs,
+LEAF = {"use-xlink": el_use_xlink, "use-external": el_use_external, "ws-content": el_ws_content, "clip-values": el_clip_values, "clip-nobox": el_clip_nobox, "ids-unicode": el_ids_unicode, "transform-ws": el_transform_ws, "use-centred": el_use_centred, "line-partial": el_line_partial, "text-forms": el_text_forms, "points-ws": el_points_ws, "fine-decimals": el_fine_decimals, "comment-text": el_comment_text, "mixed-units": el_mixed_units, "nonshape-attrs": el_nonshape_attrs, "text-dx-carriers": el_text_dx_carriers, "transforms": el_transforms, "partial": el_partial, "openclose": el_openclose, "use-partial": el_use_partial, "rect": el_rect, "rect0": el_rect0, "circle": el_circle, "ellipse": el_ellipse, "line": el_line, "polyline": el_polyline, "polygon": el_polygon, "path-abs": el_path_abs,
         "path-rel": el_path_rel, "path-arc": el_path_arc, "text": el_text, "text-tspan": el_text_tspan, "use": el_use, "image": el_image, "foreignObject": el_foreign,
         "linearGradient": el_lingrad, "radialGradient": el_radgrad, "marker": el_marker, "clipPath": el_clip, "mask": el_mask, "pattern": el_pattern, "filter": el_filter, "symbol": el_symbol,
         "title": el_title, "units": el_units, "style": el_style}
@@ -396,7 +412,9 @@ def build(td, wrong=False):
     # ids must stay unique when a generator is used twice
     for w in td.get("wrap", []):
         inner = WRAP[w](g, inner)
-    if td["root"] == "fragment":
+    if "use-xlink" in td["items"]:
+        doc = f'<svg xmlns:xlink="http://www.w3.org/1999/xlink">{inner}</svg>'
+    elif td["root"] == "fragment":
         doc = inner
     elif td["root"] == "svg-attrs":
         doc = f'<svg width="200" height="100" viewBox="0 0 200 100">{inner}</svg>'
@@ -446,4 +464,8 @@ def build(td, wrong=False):
         role = "C04/use-of-centred-shape"
     elif "line-partial" in td["items"]:
         role = "C04/line-single-coordinate"
+    elif "use-external" in td["items"]:
+        role = "C04/use-external-reference"
+    elif "ws-content" in td["items"]:
+        role = "C04/whitespace-only-content"
     return Template(name, doc, g.vars, check, family=td["fam"], role=role, cap=6)
